@@ -902,6 +902,9 @@ func (r *sbRunner) runWorker(jobs []sbJob) map[int]sbObs {
 			case strings.Contains(stderr, "fatal error:") || strings.Contains(stderr, "panic:") || strings.Contains(stderr, "goroutine "):
 				o.Out = "crash"
 				o.Note = trunc(stderr, 200)
+			case sbSignaled(err):
+				o.Out = "crash" // killed from outside (memory, ...): not an exit the script asked for
+				o.Note = fmt.Sprint(err)
 			default:
 				o.Out = "exit"
 				evs["exit"] = true
@@ -914,6 +917,15 @@ func (r *sbRunner) runWorker(jobs []sbJob) map[int]sbObs {
 		os.RemoveAll(filepath.Dir(dir))
 	}
 	return got
+}
+
+func sbSignaled(err error) bool {
+	if ee, ok := err.(*exec.ExitError); ok && ee.ProcessState != nil {
+		if ws, ok := ee.ProcessState.Sys().(syscall.WaitStatus); ok {
+			return ws.Signaled()
+		}
+	}
+	return false
 }
 
 func sbReadTail(p string) string {
@@ -1098,6 +1110,9 @@ func (r *sbRunner) runCmd(jobs []sbJob) map[int]sbObs {
 				if strings.Contains(seg, "panic:") || strings.Contains(seg, "fatal error:") || strings.Contains(seg, "goroutine ") {
 					o.Out = "crash"
 					o.Note = trunc(seg, 200)
+				} else if strings.HasPrefix(status, "signal:") {
+					o.Out = "crash"
+					o.Note = status
 				} else {
 					o.Out = "exit"
 					evs["exit"] = true
